@@ -278,7 +278,7 @@ class SqliteMixin:
         r = z3.Int("r!many")
         inrange = z3.And(r > base, r <= base + n)
         row = self.list_elem_val(rowsv, r - base - 1, st)
-        q = Query(db, list(row.t))
+        q = Query(db, list(row.t), row_var=r)
         line = getattr(node, "lineno", None)
         sch = db.schema[table]
         jq = fresh("mq", I)
@@ -308,6 +308,8 @@ class SqliteMixin:
         """row id argument of a specification function (an Optional[int] id is read through)"""
         if v.ty.name == "Opt":
             return self._inner(v).t
+        if v.ty != INT:
+            raise Unsupported(f"row id of type {v.ty}")
         return v.t
 
     def _sdb(self, args, st):
@@ -368,7 +370,10 @@ class SqliteMixin:
     def x_bi_bucket_exists(self, args, kw, st, node):
         db = self._sdb(args, st)
         r = fresh("be_r", I)
-        return Val(BOOL, z3.Exists([r], z3.And(db.live("buckets", r), db.col("buckets", "id", r) == self._rid(args[1]))))
+        return Val(BOOL, z3.Exists([r], z3.And(db.live("buckets", r), db.col("buckets", "id", r) == args[1].t)))
+
+    def x_bi_bk_max(self, args, kw, st, node):
+        return Val(INT, self._sdb(args, st).scalar("buckets.max"))
 
     def x_bi_ev_max(self, args, kw, st, node):
         return Val(INT, self._sdb(args, st).scalar("events.max"))
